@@ -37,7 +37,7 @@ _FOREIGN_STMT = (ast.Return, ast.Raise, ast.Break, ast.Continue, ast.FunctionDef
 _FOREIGN_EXPR = (ast.Yield, ast.YieldFrom, ast.Await, ast.Lambda, ast.NamedExpr)
 
 
-def _foreign(node, marker_ids):
+def _foreign(node, marker_ids, allowed=()):
     for n in ast.walk(node):
         if isinstance(n, _FOREIGN_STMT + _FOREIGN_EXPR):
             return True
@@ -50,6 +50,8 @@ def _foreign(node, marker_ids):
         if isinstance(n, ast.Call) and id(n) not in marker_ids:
             r = _root(n.func)
             if r == 'self':
+                if isinstance(n.func, ast.Attribute) and n.func.attr in allowed:
+                    continue
                 return True
             if isinstance(n.func, ast.Attribute) and r not in ('_logger', 'logging', 'logger', 'os', 'math') and \
                     n.func.attr not in ('format', 'get', 'encode', 'decode', 'join', 'startswith', 'endswith', 'lower', 'upper', 'strip'):
@@ -126,7 +128,7 @@ def _chain(fn, target):
     return go(fn.body) or []
 
 
-def outline(cls_node, fn, marker, name, order_hint=(), extend_forward=True):
+def outline(cls_node, fn, marker, name, order_hint=(), extend_forward=True, allowed=()):
     """move the side-effect free region of method `fn` around expression node `marker` into a new method `name` of cls_node;
     returns the new FunctionDef or None when the conditions do not hold"""
     if not fn.args.args or fn.args.args[0].arg != 'self':
@@ -161,11 +163,11 @@ def outline(cls_node, fn, marker, name, order_hint=(), extend_forward=True):
                         args=[ast.Name(id=x, ctx=ast.Load()) for x in ins], keywords=[])
     stmts, idx = chain[-1]
     s0 = stmts[idx]
-    if _foreign(s0, mids):
+    if _foreign(s0, mids, allowed):
         # expression region
         field = 'test' if isinstance(s0, (ast.If, ast.While)) else 'value' if isinstance(s0, (ast.Return, ast.Assign, ast.AugAssign, ast.Expr)) else None
         e = getattr(s0, field, None) if field else None
-        if e is None or not any(x is marker for x in ast.walk(e)) or _foreign(e, mids):
+        if e is None or not any(x is marker for x in ast.walk(e)) or _foreign(e, mids, allowed):
             return None
         ins = ordered([x for x in _names([e], ast.Load) if x in locals_])
         helper = make([ast.Return(value=e)], ins)
@@ -178,7 +180,7 @@ def outline(cls_node, fn, marker, name, order_hint=(), extend_forward=True):
     while level > 0:
         pst, pi = chain[level - 1]
         p = pst[pi]
-        if isinstance(p, ast.If) and not _foreign(p, mids):
+        if isinstance(p, ast.If) and not _foreign(p, mids, allowed):
             level -= 1
         else:
             break
@@ -186,7 +188,7 @@ def outline(cls_node, fn, marker, name, order_hint=(), extend_forward=True):
     region = [stmts[idx]]
     # widened forward over the effect-free statements that go on computing with what the region produced
     j = idx + 1
-    while extend_forward and j < len(stmts) and isinstance(stmts[j], (ast.Assign, ast.If)) and not _foreign(stmts[j], mids) and \
+    while extend_forward and j < len(stmts) and isinstance(stmts[j], (ast.Assign, ast.If)) and not _foreign(stmts[j], mids, allowed) and \
             set(_names([stmts[j]], ast.Load)) & set(_names(region, ast.Store)):
         region.append(stmts[j])
         j += 1
@@ -309,6 +311,8 @@ def _is_kill_call(cls_node):
 ROLES = [
     # (module, class, pinned owner of the marker, marker predicate (or factory taking the class), name of the synthetic method, kind)
     ('playback.tape_recorder', 'TapeRecorder', '_should_sample_active_recording', _is_draw, '_sampling_decision__outlined', 'pure'),
+    ('playback.tape_cassettes.s3.s3_tape_cassette', 'S3TapeCassette', '_should_sample', _is_draw, '_size_sampling_decision__outlined',
+     ('pure', ('sampling_calculator', 'extract_recording_category'))),
     ('playback.studio.equalizer', 'Equalizer', '_handle_compare_execution_timeout', _is_kill_call, '_timeout_path__outlined', 'block'),
     ('playback.interception.files.file_interception', 'FileInterception', '_serialize_file',
      lambda n: isinstance(n, ast.Call) and isinstance(n.func, ast.Attribute) and n.func.attr == 'b64encode', '_serialize__outlined', 'pure'),
@@ -398,7 +402,13 @@ def outline_roles(trees, signatures):
             if any(isinstance(x, ast.FunctionDef) and x.name == owner for x in c.body):
                 continue
             hint = signatures.get('%s::%s::%s' % (module, cls, owner), [])
-            h = (outline if kind == 'pure' else outline_block)(c, m, marker, name, order_hint=[p for p in hint if p != 'self'])
+            allowed = ()
+            if isinstance(kind, tuple):
+                kind, allowed = kind
+            if kind == 'pure':
+                h = outline(c, m, marker, name, order_hint=[p for p in hint if p != 'self'], allowed=allowed)
+            else:
+                h = outline_block(c, m, marker, name, order_hint=[p for p in hint if p != 'self'])
             if h is not None:
                 done.append((name, m.name))
     return done
